@@ -34,8 +34,9 @@ def b_vars(self, a, kw):
 @H('len')
 def b_len(self, a, kw):
   v = self.deref(a[0])
-  if isinstance(v, SV) and isinstance(v.sort, Union):
-    v = self.unwrap(v)
+  for _ in range(3):
+    if isinstance(v, SV) and isinstance(v.sort, Union):
+      v = self.unwrap(v)
   if isinstance(v, _ObjCase) and v.ctor.tuple_like:
     return len(v.ctor.fields)
   if isinstance(v, PyTuple):
